@@ -52,6 +52,7 @@ from cirq.circuits.insert_strategy import InsertStrategy
 from cirq.circuits.moment import Moment
 from cirq.circuits.qasm_output import QasmOutput
 from cirq.circuits.text_diagram_drawer import TextDiagramDrawer
+from cirq.ops.raw_types import _tags_from_json
 from cirq.protocols import circuit_diagram_info_protocol
 
 if TYPE_CHECKING:
@@ -1450,7 +1451,7 @@ class AbstractCircuit(abc.ABC):
 
     @classmethod
     def _from_json_dict_(cls, moments, tags=(), **kwargs):
-        return cls(moments, tags=tags, strategy=InsertStrategy.EARLIEST)
+        return cls(moments, tags=_tags_from_json(tags), strategy=InsertStrategy.EARLIEST)
 
     def zip(
         *circuits: cirq.AbstractCircuit, align: cirq.Alignment | str = Alignment.LEFT
